@@ -189,6 +189,10 @@ class ReviewedMatcher:
     # assert (kind `assert:bounds`): the same construct for review purposes
     _SAME = {'index': 'assert:bounds', 'assert:bounds': 'index'}
 
+    def present_has_site(self, fn_, kind):
+        ps = getattr(self, 'site_kinds', None)
+        return ps is None or (fn_, kind) in ps or (fn_, self._SAME.get(kind)) in ps
+
     def match(self, body, short, kind, bb, cond=None):
         key = (short, kind)
         if key not in self.reviewed and (short, self._SAME.get(kind)) in self.reviewed:
@@ -204,7 +208,14 @@ class ReviewedMatcher:
             rk = (fn_, kd)
             if kd != kind or rk not in self.reviewed:
                 continue
-            if sig in sigs and self.used.get(rk, 0) < self.reviewed[rk][0] and (cond is None or cond(body, bb)):
+            if fn_ in self.present and self.present_has_site(fn_, kd):
+                continue      # the reviewed function is still there with a site of that kind: the entry is its own
+            same = sig in sigs
+            if not same and '::{closure#' in fn_ and '::{closure#' in short and fn_.split('::{closure#')[0] == short.split('::{closure#')[0] and ' | ' in sig:
+                # a closure of the same function, renumbered because a sibling closure went away or came: what is
+                # indexed may be built differently now, the index operand is the same
+                same = any(' | ' in s_ and s_.split('(')[0] == sig.split('(')[0] and s_.rsplit(' | ', 1)[1] == sig.rsplit(' | ', 1)[1] for s_ in sigs)
+            if same and self.used.get(rk, 0) < self.reviewed[rk][0] and (cond is None or cond(body, bb)):
                 self.used[rk] = self.used.get(rk, 0) + 1
                 return 'reviewed (site recognised by what it operates on; reviewed under the name %s): %s' % (fn_, self.reviewed[rk][1])
         return None
